@@ -858,3 +858,32 @@ correspondence, search, replay = _history.attach(PID, correspondence, search, re
 from props import thirdparty as _thirdparty  # noqa: E402
 
 correspondence, search, replay = _thirdparty.attach(PID, correspondence, search, replay)
+
+
+# a process whose LC_TIME is not English: two listings at the same time keep the wire format and the process its locale
+def _with_locale(corr, srch, rep):
+    from props import c07_locale
+
+    def c2(ctx):
+        r = corr(ctx)
+        r.merge(c07_locale.run(ctx, PID))
+        return r
+
+    def s2(ctx, prior):
+        r = srch(ctx, prior)
+        r.merge(c07_locale.run(ctx, PID))
+        return r
+
+    def r2(ctx, doc):
+        inp = (doc.get("failure") or {}).get("input")
+        if isinstance(inp, dict) and inp.get("kind") == "foreign-lc-time":
+            r = c07_locale.run(ctx, PID)
+            for f in r.oracle_failures:
+                print(f["what"])
+            return bool(r.oracle_failures)
+        return rep(ctx, doc)
+
+    return c2, s2, r2
+
+
+correspondence, search, replay = _with_locale(correspondence, search, replay)
